@@ -1,9 +1,12 @@
 //! h03 -- translator (T) and runner legs for C03 / C06.
 //!   h03 translate <wrappers_dir> <out_dir>
 //!   h03 fault <wrappers_dir> <out_dir> <quick|thorough>
+//!   h03 pipeline <out_dir> <quick|thorough>
 mod compile;
 mod fault;
 mod operands;
+mod oracle;
+mod pipeline;
 mod translate;
 
 use std::path::{Path, PathBuf};
@@ -18,6 +21,7 @@ fn main() {
     match args[1].as_str() {
         "translate" => translate_cmd(Path::new(&args[2]), Path::new(&args[3])),
         "fault" => fault_cmd(Path::new(&args[2]), Path::new(&args[3]), args.get(4).map(|s| s.as_str()).unwrap_or("quick")),
+        "pipeline" => pipeline_cmd(Path::new(&args[2]), args.get(3).map(|s| s.as_str()).unwrap_or("quick")),
         m => {
             eprintln!("unknown mode {m}");
             std::process::exit(2);
@@ -141,5 +145,132 @@ fn fault_cmd(wrappers: &Path, out: &Path, tier: &str) {
     println!(
         "fault: {} wrappers, {} tuples, {} hint occurrences, {} mutated runs: {} VM failures, {} same result, {} DIFFERENT; {} errors; {:.1}s",
         reports.len(), tuples, occs, mutated, failed, same, violations.len(), errors.len(), t0.elapsed().as_secs_f64()
+    );
+}
+
+fn pipeline_cmd(out: &Path, tier: &str) {
+    use rayon::prelude::*;
+    vcommon::quiet_panics();
+    let t0 = Instant::now();
+    let seed = vcommon::Rng::from_env().0;
+    let full = tier == "thorough";
+    let cases_dir = out.join("cases");
+    std::fs::create_dir_all(&cases_dir).unwrap();
+    let defs = pipeline::op_table();
+    let files = pipeline::write_sources(&defs, &out.join("src"));
+    let mut db = compile::new_db();
+    let compiled = compile::compile_files(&mut db, &files, &out.join("crates"));
+    drop(db);
+    let t_compile = t0.elapsed().as_secs_f64();
+    let mut errors: Vec<String> = vec![];
+    let mut jobs = vec![];
+    for (d, c) in defs.iter().zip(compiled) {
+        assert_eq!(d.name, c.name);
+        match c.program {
+            Ok(p) => jobs.push((d.clone(), p)),
+            Err(e) => errors.push(format!("{}: does not compile: {}", d.name, e.chars().take(400).collect::<String>())),
+        }
+    }
+    let runs: Vec<pipeline::OpRun> = jobs.par_iter().map(|(d, p)| pipeline::run_op(d, p, full, seed)).collect();
+    let mut evals = 0usize;
+    let mut distinct: std::collections::BTreeSet<String> = Default::default();
+    let mut oracle_failures = vec![];
+    let mut oracle_checked = 0usize;
+    let mut samples = vec![];
+    let mut failed_runs = 0usize;
+    let mut panics = 0usize;
+    let mut per_type: std::collections::BTreeMap<String, usize> = Default::default();
+    let mut sweep_evals = 0usize;
+    let mut all_lines: Vec<String> = vec![];
+    for r in &runs {
+        if let Some(e) = &r.error {
+            errors.push(format!("{}: {}", r.def.name, e));
+            continue;
+        }
+        all_lines.extend(pipeline::case_lines(r));
+        evals += r.cases.len() + pipeline::write_sweep_shards(r, &cases_dir);
+        *per_type.entry(r.def.tyname.clone()).or_default() += r.cases.len();
+        sweep_evals += r.rows.iter().map(|x| x.1.len()).sum::<usize>();
+        let mut check = |args: &Vec<num_bigint::BigInt>, o: &fault::Outcome| {
+            match o {
+                fault::Outcome::Failed(e) => {
+                    failed_runs += 1;
+                    if oracle_failures.len() < 50 {
+                        oracle_failures.push(serde_json::json!({"op": r.def.name, "source": r.def.src,
+                            "args": args.iter().map(|x| x.to_string()).collect::<Vec<_>>(),
+                            "why": format!("the run FAILED in the VM: {e}")}));
+                    }
+                }
+                fault::Outcome::Value(v) => {
+                    if matches!(v, cairo_lang_runner::RunResultValue::Panic(_)) {
+                        panics += 1;
+                    }
+                    let key = r.def.coq_op.trim_start_matches('(').split(' ').next().unwrap().to_string();
+                    if let Some(exp) = oracle::expected(&key, &r.def.ty, args) {
+                        oracle_checked += 1;
+                        let got = match v {
+                            cairo_lang_runner::RunResultValue::Success(xs) => {
+                                oracle::Expect::Success(xs.iter().map(|x| x.to_bigint()).collect())
+                            }
+                            cairo_lang_runner::RunResultValue::Panic(xs) => {
+                                if xs.len() == 1 {
+                                    let want = match &exp { oracle::Expect::Panic(s) => Some(s.clone()), _ => None };
+                                    match want {
+                                        Some(s) if oracle::short_string(&s) == xs[0].to_bigint() => oracle::Expect::Panic(s),
+                                        _ => oracle::Expect::Panic(format!("<felt {}>", xs[0].to_bigint())),
+                                    }
+                                } else {
+                                    oracle::Expect::Panic(format!("<{} felts>", xs.len()))
+                                }
+                            }
+                        };
+                        if got != exp && oracle_failures.len() < 50 {
+                            oracle_failures.push(serde_json::json!({"op": r.def.name, "source": r.def.src,
+                                "args": args.iter().map(|x| x.to_string()).collect::<Vec<_>>(),
+                                "got": format!("{got:?}"), "expected": format!("{exp:?}"),
+                                "why": format!("{} on {:?}: implementation returned {:?}, the mathematical result is {:?}",
+                                    r.def.name, args.iter().map(|x| x.to_string()).collect::<Vec<_>>(), got, exp)}));
+                        }
+                    }
+                }
+            }
+        };
+        for (args, o) in &r.cases {
+            distinct.insert(format!("{}{:?}", r.def.name, args));
+            check(args, o);
+        }
+        for (a, os) in &r.rows {
+            let mut b = r.def.args[1].min();
+            for o in os {
+                while !r.def.args[1].contains(&b) {
+                    b += 1;
+                }
+                distinct.insert(format!("{}[{}, {}]", r.def.name, a, b));
+                check(&vec![a.clone(), b.clone()], o);
+                b += 1;
+            }
+        }
+        if samples.len() < 12 && !r.cases.is_empty() {
+            let (args, o) = &r.cases[r.cases.len() / 2];
+            samples.push(format!("{}({}) = {}", r.def.name,
+                args.iter().map(|x| x.to_string()).collect::<Vec<_>>().join(", "), pipeline::coq_outcome(o)));
+        }
+    }
+    let n_shards = pipeline::write_case_shards(&all_lines, &cases_dir);
+    std::fs::write(out.join("oracle_failures.json"), serde_json::to_string_pretty(&oracle_failures).unwrap()).unwrap();
+    std::fs::write(out.join("samples.txt"), samples.join("\n")).unwrap();
+    let summary = serde_json::json!({
+        "functions": defs.len(), "functions_compiled": jobs.len(), "evaluations": evals, "case_shards": n_shards,
+        "distinct_cases": distinct.len(), "exhaustive_8bit_evaluations": sweep_evals,
+        "runs_that_panicked": panics, "runs_failed_in_vm": failed_runs,
+        "oracle_checked": oracle_checked, "oracle_failures": oracle_failures.len(),
+        "cases_per_type": per_type, "errors": errors, "tier": tier, "seed": seed,
+        "compile_s": t_compile, "total_s": t0.elapsed().as_secs_f64(),
+    });
+    std::fs::write(out.join("summary.json"), serde_json::to_string_pretty(&summary).unwrap()).unwrap();
+    println!(
+        "pipeline: {} functions ({} compiled), {} evaluations ({} in 8-bit sweeps), {} panics, {} VM failures, oracle: {} checked / {} failures, {} errors, {:.1}s",
+        defs.len(), jobs.len(), evals, sweep_evals, panics, failed_runs, oracle_checked, oracle_failures.len(), errors.len(),
+        t0.elapsed().as_secs_f64()
     );
 }
